@@ -9,9 +9,16 @@ tokens normalised; the attribute checker's late diagnostics included)) are compa
   layout     : fresh interpreters with the SAME PYTHONHASHSEED but another heap layout (ASLR, junk allocations before
                import / before parse, PYTHONMALLOC=malloc, gc off),
   hashseed   : fresh interpreters with different PYTHONHASHSEED (confirmed by a second interpreter with that seed),
-  history    : a Checker that has already checked other programs vs. a fresh one: in this process (candidates) and,
+  history    : a Checker that has already checked other programs (among them P's respelled twin: the same program with
+               the members of its Union/Optional/Literal annotations written in another order) vs. a fresh one: in this
+               process (candidates) and,
                because pyanalyze keeps state in shared Value objects that outlive a Checker, confirmed in fresh
-               interpreters: [P] vs [H..., P]; every shard also runs its list in reverse order after a warm-up program,
+               interpreters: [P] vs [H..., P]; every shard also runs its list in reverse order after a warm-up program;
+               and, for state that belongs to the interpreter rather than to pyanalyze (sys.modules, attributes of package
+               objects), generated pairs (P, H) - P never executes its import of a standard-library submodule that nothing
+               else loads, H loads that submodule in another way - checked as [P] and [H, P] in two images of one
+               interpreter that has imported pyanalyze, built its Checker and checked nothing; in the same way [P] vs
+               [twin, P] vs [twin, typing caches emptied, P] for P's respelled twin,
   file-order : the CLI on a directory vs. the same files one at a time / with --parallel.
 
 Mechanism key (DESIGN Appendix A): axis | code of the differing diagnostic | what differs [| message class].
@@ -22,7 +29,15 @@ Mechanism key (DESIGN Appendix A): axis | code of the differing diagnostic | wha
    the defect is in how the value is built or printed, and every code whose message embeds it shows it.
  * the message class (first differing line, names and numbers abstracted) is added for listed-names-order and content,
    because one code has several message builders.  unused_variable and unused_assignment come out of one loop and share
-   one key.
+   one key.  `module 'a' has no attribute 'b'` is classed by the program text: the program imports a.b (the checker did not
+   load what the program asks for) / it never does (the answer mirrors what earlier code loaded into the package
+   object); other differences on the same line (revealed type Any, ...) are consequences and are not reported again.
+ * attribution experiments replace the key where a difference is shown to come from the checked program's own objects:
+   `via:set-object-of-the-checked-program` (hash-seed axis; vanishes when the program's sets become tuples) and
+   `history|*|content|via:submodule-that-the-checked-program-never-imports` (history axis; vanishes when the program is
+   made to import the submodules it reaches through a package object) and
+   `history|*|union-member-order|via:typing-module-cache-of-generic-aliases` (history axis; [H, P] shows it, [H, typing
+   caches emptied, P] does not: the spelling came through typing's cache of equal generic aliases, not through pyanalyze).
  * every differing diagnostic of a pair is classified (not only the first), so one unstable message cannot hide another.
 An observation made on a coarse axis is first re-tried on the finer ones (repeat < layout < hashseed < history <
 file-order), so that e.g. a set ordered by id() is reported once, as `repeat`, whichever environment pair exposed it.
@@ -51,13 +66,30 @@ RULE = (
     "case = one program P checked under every environment of its shard: R in-process runs on one fresh Checker (3 warm-up + "
     "5-6 compared), self/prefix/warm-up+reversed/related histories on shared Checkers, one fresh interpreter per environment "
     "(base; 3-6 heap layouts with the base seed; 5-14 other PYTHONHASHSEEDs, 2-4 of them twice with another layout; the list in "
-    "reverse order after a warm-up program), and for a sample the CLI on a directory vs single file vs --parallel. Corpus: 23 "
-    "targeted families (or-chains of 3-5 narrowing conditions, assignments in try/with bodies, 3-6 unused variables, 2-5 "
+    "reverse order after a warm-up program), and for a sample the CLI on a directory vs single file vs --parallel. A second "
+    "kind of case = one pair (P, H) of the import plan: P imports one of 26 standard-library submodules that neither pyanalyze "
+    "nor its dependencies load (checked per run: `import_pairs_submodule_not_preloaded`) in one of 6 forms (import a.b / "
+    "import a.b as c / from a import b / from a.b import x [as y] / import a.b, p.q) at one of 7 places (def body, if "
+    "TYPE_CHECKING, try in def, nested def, class body in def, if in def; module level as the executed control) and uses the "
+    "submodule it imported, a sibling submodule it never imports, or a submodule of a package it imports alone; H is an "
+    "unrelated program that gets the same submodule loaded in one of 8 ways (module-level / in-function import, aliased or "
+    "not, from-imports, importlib) or does not (2 controls); every (form of P, form of H) combination occurs in each run; "
+    "[P] and [H, P] run in two forked images of one interpreter that has only imported pyanalyze and built its Checker. "
+    "3-12 programs per shard (those with unions inside generics first) are also checked after their respelled twin (members "
+    "of every Union/Optional/Literal/`|` annotation rotated) in such images: [P], [twin, P], [twin, typing caches emptied, P]. "
+    "Corpus: 30 targeted families (never-executed imports and import-loading programs as above; List/Dict/Tuple/Set/Deque "
+    "specialised with 2-3 of 4 atoms in random order and either spelling, read back through Sequence[T]/Iterable[T]/iteration; "
+    "classes whose body conflicts with the "
+    "same attribute/method defined on 2-4 bases - side by side, parent+grandparent chain, diamond, mixed -, 1-3 attributes and "
+    "0-2 methods per class body; 3-5 unimplemented abstract methods, protocol members supplied by different bases in both MRO "
+    "orders; reveal_locals() after 3-6 names first bound inside if/else/elif/try/for; "
+    "or-chains of 3-5 narrowing conditions, assignments in try/with bodies, 3-6 unused variables, 2-5 "
     "unexpected keywords, protocols with 3-6 members, %(k)s/{k} templates with missing/unused keys, unions of >=10 literals, "
     "TypedDict, overloads, constrained TypeVars, match or-patterns, set/dict displays, bad context managers, bad calls of "
     "builtins (typeshed signatures in the message), narrowing-predicate values, ...), vp.illtyped programs, vp.proggen modules "
     "with reveal_type appended, and the bodies of @assert_passes/@assert_fails tests of /repo that import standalone. "
-    "Non-trivial = P has >= 2 diagnostics or a message listing >= 2 items; distinct by source digest; the evidence lists how "
+    "Non-trivial = P has >= 2 diagnostics or a message listing >= 2 items (import pair: the submodule was not loaded before "
+    "the check); distinct by source digest; the evidence lists how "
     "many environments each program was observed under and how many distinct renderings were seen."
 )
 ASSUMPTIONS = [
@@ -71,9 +103,11 @@ ASSUMPTIONS = [
 ]
 FLOORS = {
     "quick": {"distinct_nontrivial": 180, "programs": 200, "environments_compared": 3400, "child_environments": 120,
-              "inproc_repeat_runs": 1600, "histories": 1000, "cli_invocations": 6},
+              "inproc_repeat_runs": 1600, "histories": 1000, "cli_invocations": 6,
+              "import_pairs": 48, "import_pairs_submodule_not_preloaded": 40, "twin_histories": 24},
     "thorough": {"distinct_nontrivial": 900, "programs": 1000, "environments_compared": 25000, "child_environments": 220,
-                 "inproc_repeat_runs": 9000, "histories": 6000, "cli_invocations": 40},
+                 "inproc_repeat_runs": 9000, "histories": 6000, "cli_invocations": 40,
+                 "import_pairs": 240, "import_pairs_submodule_not_preloaded": 200, "twin_histories": 90},
 }
 NSHARDS = 16
 WATCHDOG_S = {"quick": 1800, "thorough": 10800}
@@ -246,6 +280,8 @@ def _abstract(line: str) -> str:
     if s.startswith("Revealed type is"):
         return "Revealed type is"
     s = re.sub(r"^In call to [^:]*: ", "", s)
+    # message builders that embed a bare identifier of the checked program
+    s = re.sub(r"^(Value of|Variable|Undefined name:|Incompatible argument type for|Missing required argument|Cannot import name) [\w.]+", r"\1 N", s)
     s = re.sub(r"\((?:[^()]|\([^()]*\))*\) -> \S.*$", "(SIG)", s)
     s = re.sub(r"^.*?(?= has no attribute | is not a )", "T", s)
     s = re.sub(r"[bBrRuU]{0,2}'[^']*'|[bBrRuU]{0,2}\"[^\"]*\"", "N", s)
@@ -292,9 +328,10 @@ def _crash_class(d) -> str:
 EXCUSED = "excused"
 
 
-def classify_all(ra, rb, keep_excused: bool = False) -> list:
+def classify_all(ra, rb, keep_excused: bool = False, src=None) -> list:
     """[] if equal, else one (code, kind, message-class-or-'', da, db) per differing diagnostic (distinct suffixes only;
-    in emission order of `ra`)."""
+    in emission order of `ra`).  `src` (the checked program, when the caller has it) lets a diagnostic that exists in
+    only one of the runs be classed by what it is about (see one_sided_class)."""
     A, B = [tuple(d) for d in ra], [tuple(d) for d in rb]
     if A == B:
         return []
@@ -315,16 +352,22 @@ def classify_all(ra, rb, keep_excused: bool = False) -> list:
         j = next((j for j, d in enumerate(only_b) if j not in used_b and d[:3] == da[:3]), None)
         if j is not None:
             used_b.add(j)
-        c = _classify_pair(da, only_b[j] if j is not None else None)
+        c = _classify_pair(da, only_b[j] if j is not None else None, src)
         if suffix_of(c) not in seen:
             seen.add(suffix_of(c))
             out.append(c)
     for j, db in enumerate(only_b):
         if j not in used_b:
-            c = (db[0], "content", "diagnostic present in only one of the runs", None, db)
+            c = (db[0], "content", one_sided_class(db, src), None, db)
             if suffix_of(c) not in seen:
                 seen.add(suffix_of(c))
                 out.append(c)
+    # a name that resolves in only one of the runs changes whatever else is said about its line (the revealed type
+    # becomes Any, ...): consequences of the missing-module-attribute difference, which is reported itself
+    anchor_lines = {d[1] for d in only_a + only_b if _MODATTR_RE.search(_headline(d))}
+    if anchor_lines:
+        out = [c for c in out if module_attr_class(c[3] or c[4], src)
+               or not any(d is not None and d[1] in anchor_lines for d in (c[3], c[4]))]
     if not keep_excused:
         out = [c for c in out if c[1] != EXCUSED]
     return out
@@ -336,10 +379,61 @@ def classify(ra, rb):
     return cs[0] if cs else None
 
 
-def _classify_pair(da, db):
+ONE_SIDED = "diagnostic present in only one of the runs"
+_MODATTR_RE = re.compile(r"module '([\w.]+)' has no attribute '(\w+)'")
+
+
+def imported_names(src: str) -> set:
+    """Every dotted name that an import statement of the program (executed or not) asks for, with all its prefixes:
+    `import a.b.c` -> a, a.b, a.b.c;  `from a.b import c` -> a, a.b, a.b.c."""
+    out: set = set()
+    try:
+        tree = ast.parse(src)
+    except SyntaxError:
+        return out
+    for node in ast.walk(tree):
+        names = []
+        if isinstance(node, ast.Import):
+            names = [a.name for a in node.names]
+        elif isinstance(node, ast.ImportFrom) and node.module and not node.level:
+            names = [node.module] + [f"{node.module}.{a.name}" for a in node.names]
+        for nm in names:
+            parts = nm.split(".")
+            out.update(".".join(parts[: i + 1]) for i in range(len(parts)))
+    return out
+
+
+def _headline(d) -> str:
+    return next((l for l in str(d[3]).split("\n") if l.strip()), "") if d is not None else ""
+
+
+def module_attr_class(d, src):
+    """`module 'a' has no attribute 'b'` is two different things, told apart by the program text: the program imports
+    that very submodule (then the checker failed to load what the program asks for), or it never imports it (then the
+    answer merely mirrors which submodules some earlier code happened to load into the shared package object).
+    None if `d` is not such a diagnostic."""
+    m = _MODATTR_RE.search(_headline(d))
+    if not m:
+        return None
+    if src is not None and f"{m.group(1)}.{m.group(2)}" in imported_names(src):
+        return "missing attribute of a package is a submodule that the program imports"
+    if src is not None:
+        return "missing attribute of a package, the program never imports such a submodule"
+    return "missing attribute of a package"
+
+
+def one_sided_class(d, src=None) -> str:
+    """Class of a diagnostic that one run has and the other has not."""
+    return module_attr_class(d, src) or ONE_SIDED
+
+
+def _classify_pair(da, db, src=None):
     if db is None:
-        return da[0], "content", "diagnostic present in only one of the runs", da, None
+        return da[0], "content", one_sided_class(da, src), da, None
     ma, mb = str(da[3]), str(db[3])
+    if module_attr_class(da, src) and module_attr_class(db, src):
+        # the same attribute chain a.b.c fails at another link
+        return da[0], "content", module_attr_class(da, src), da, db
     if _ADDR_RE.sub("0xADDR", ma) == _ADDR_RE.sub("0xADDR", mb):
         m = _ADDR_RE.search(ma)
         internal = text_inside_internal_repr(ma, m.start())
@@ -369,6 +463,9 @@ def _classify_pair(da, db):
             # the protocol check names the first member (in set order) that the value lacks
             return "*", "content", "protocol member reported as the failing one", da, db
     ha, hb = [next((l for l in x.split("\n") if l.strip()), "") for x in (ma, mb)]
+    if ha == hb and ha.startswith("Revealed local types are") and sorted(la) == sorted(lb):
+        # reveal_locals(): one `name: type` line per local, same lines in another order
+        return da[0], "listed-names-order", "Revealed local types are: one line per name", da, db
     if ha != hb and canon_union(ha) == canon_union(hb):
         # the headline shows the same union in another order; the detail then names another member first
         return "*", "union-member-order", "", da, db
@@ -410,11 +507,11 @@ def text_inside_internal_repr(text: str, pos: int) -> bool:
 CODE_GROUPS = {"unused_variable": "unused_variable/unused_assignment", "unused_assignment": "unused_variable/unused_assignment"}
 
 
-def same_wrt(c, r_first, r_other) -> bool:
+def same_wrt(c, r_first, r_other, src=None) -> bool:
     """Do two renderings agree as far as the difference `c` is concerned (other nondeterminism in the same program
     must not confound the attribution of this one)?"""
     if c[1] == "order-of-diagnostics" or (c[3] is None and c[4] is None):
-        return all(suffix_of(c2) != suffix_of(c) for c2 in classify_all(r_first, r_other))
+        return all(suffix_of(c2) != suffix_of(c) for c2 in classify_all(r_first, r_other, src=src))
     for d in (c[3], c[4]):
         if d is not None and (tuple(d) in {tuple(x) for x in r_first}) != (tuple(d) in {tuple(x) for x in r_other}):
             return False
@@ -484,6 +581,17 @@ class ChildFailed(Exception):
 
 def run_child(env: dict, programs: list, repeat: int = 1, timeout: float = 3000.0) -> list:
     """programs: [{'src':..., 'mode':...}] -> per program a list of `repeat` renderings (tuples)."""
+    return run_child_full(env, programs, repeat, timeout)["renderings"]
+
+
+def run_child_groups(env: dict, groups: list, probe_modules=(), timeout: float = 3000.0):
+    """groups: lists of programs, each list checked in order on one Checker in its own image of one interpreter (forked
+    after importing pyanalyze, before anything is checked) -> (per group the list of renderings or None, preloaded)."""
+    data = run_child_full(env, [], 1, timeout, groups=groups, probe_modules=list(probe_modules))
+    return data["group_renderings"], data["preloaded"]
+
+
+def run_child_full(env: dict, programs: list, repeat: int = 1, timeout: float = 3000.0, groups=None, probe_modules=None) -> dict:
     e = dict(os.environ)
     e["PYTHONHASHSEED"] = str(env["hashseed"])
     e["PYTHONPATH"] = f"{harness.REPO}:{HERE}"
@@ -493,7 +601,8 @@ def run_child(env: dict, programs: list, repeat: int = 1, timeout: float = 3000.
     if env.get("malloc"):
         e["PYTHONMALLOC"] = env["malloc"]
     job = {"junk_import": env.get("junk_import", 0), "junk_parse": env.get("junk_parse", 0), "gc": env.get("gc", True),
-           "junk_seed": env.get("junk_seed", 0), "programs": programs, "repeat": repeat}
+           "junk_seed": env.get("junk_seed", 0), "programs": programs, "repeat": repeat,
+           "groups": groups or [], "probe_modules": probe_modules or []}
     try:
         p = subprocess.run([harness.PYTHON, "-m", "vp.c10_child"], input=json.dumps(job), cwd=HERE, env=e,
                            capture_output=True, text=True, timeout=timeout)
@@ -504,7 +613,9 @@ def run_child(env: dict, programs: list, repeat: int = 1, timeout: float = 3000.
         raise ChildFailed(f"rc={p.returncode} no result; stderr tail: {p.stderr[-800:]}")
     data = json.loads(line[len("C10RESULT "):])
     assert data["hashseed"] == str(env["hashseed"]), data
-    return [[_tup(r) for r in rs] for rs in data["renderings"]]
+    return {"renderings": [[_tup(r) for r in rs] for rs in data["renderings"]],
+            "group_renderings": [None if g is None else [_tup(r) for r in g] for g in data.get("group_renderings", [])],
+            "preloaded": data.get("preloaded", [])}
 
 
 # ---------------------------------------------------------------------------
@@ -539,20 +650,20 @@ def inproc_repeats(src: str, mode: str, n: int, rng: random.Random, kw=None) -> 
     return out
 
 
-def repeat_diffs(rs: list) -> list:
+def repeat_diffs(rs: list, src=None) -> list:
     """Differences among runs on a WARM Checker. The first WARM_RUNS runs fill the fresh Checker's caches and the lazily
     filled fields of shared Value objects: a difference between rs[0] and rs[1] or rs[2] is an effect of the Checker's
     state (axis `history`, with P itself as the history), not of repetition as such."""
     out = []
     warm = rs[WARM_RUNS:]
     for r in warm[1:]:
-        out.extend(classify_all(warm[0], r))
+        out.extend(classify_all(warm[0], r, src=src))
     return out
 
 
 def reproduces_inproc(src: str, mode: str, suffix: str, n: int, rng: random.Random):
     """Try to see the difference `suffix` between two runs on ONE warm Checker in this process."""
-    for c in repeat_diffs(inproc_repeats(src, mode, n, rng)):
+    for c in repeat_diffs(inproc_repeats(src, mode, n, rng), src):
         if suffix_of(c) == suffix:
             return c
     return None
@@ -602,7 +713,7 @@ def cli_compare(files: dict, workdir: str, singles: list):
         got = cli_run(workdir, args, vnames, vname + str(n))
         n += 1
         for nm in vnames:
-            for c in classify_all(base.get(nm, ()), got.get(nm, ())):
+            for c in classify_all(base.get(nm, ()), got.get(nm, ()), src=files.get(nm)):
                 diffs.append((nm, vname, c, (["."], args)))
     return diffs, n
 
@@ -627,7 +738,7 @@ def build_corpus(ctx) -> list:
     from vp import illtyped, proggen
 
     rng = ctx.rng
-    n_t, n_i, n_p, n_s = ctx.pick((15, 3, 3, 4), (52, 14, 14, 999))
+    n_t, n_i, n_p, n_s = ctx.pick((16, 3, 3, 4), (56, 14, 14, 999))
     progs = []
     # every family at least once per 16 shards x ... : round-robin start, then weighted
     fams = [f[0] for f in corpus.FAMILIES]
@@ -729,7 +840,7 @@ def shard(ctx) -> None:
         ctx.count("inproc_repeat_runs", R)
     for pi, p in enumerate(progs):
         p.ndiags = len(p.rep[0])
-        for c in repeat_diffs(p.rep):
+        for c in repeat_diffs(p.rep, p.src):
             p.found.setdefault(suffix_of(c), ("repeat", c, {"attempts": R}))
         if any(c[1] == EXCUSED for r in p.rep[WARM_RUNS + 1:] for c in classify_all(p.rep[WARM_RUNS], r, keep_excused=True)):
             ctx.count("programs_with_excused_repr_of_own_runtime_object")
@@ -822,7 +933,7 @@ def shard(ctx) -> None:
     for seed, ks in groups.items():
         for p in progs:
             for k in ks[1:]:
-                for c in classify_all(p.child[ks[0]], p.child[k]):
+                for c in classify_all(p.child[ks[0]], p.child[k], src=p.src):
                     if suffix_of(c) in p.found:
                         continue
                     if not escalate(p, suffix_of(c), "layout"):
@@ -835,13 +946,13 @@ def shard(ctx) -> None:
             if seed == BASE_SEED:
                 continue
             for pi, p in enumerate(progs):
-                for c in classify_all(p.child[k0], p.child[ks[0]]):
+                for c in classify_all(p.child[k0], p.child[ks[0]], src=p.src):
                     suf = suffix_of(c)
                     if suf in p.found or escalate(p, suf, "hashseed"):
                         continue
                     extra = {"envs": [envs[k0], envs[ks[0]]]}
                     if len(ks) > 1:
-                        stable = all(same_wrt(c, p.child[ks[0]], p.child[k]) for k in ks[1:])
+                        stable = all(same_wrt(c, p.child[ks[0]], p.child[k], p.src) for k in ks[1:])
                         p.found[suf] = ("hashseed" if stable else "layout", c, extra)
                     else:
                         p.found[suf] = ("hashseed", c, extra)
@@ -859,7 +970,7 @@ def shard(ctx) -> None:
             for pi, suf in items:
                 p = progs[pi]
                 _, c, extra = p.found[suf]
-                if not same_wrt(c, p.child[k], again[pi][0]):
+                if not same_wrt(c, p.child[k], again[pi][0], p.src):
                     p.found[suf] = ("layout", c, extra)
 
     # history attribution. Candidates: (1) this process: first run on a fresh Checker vs the run after a history;
@@ -887,14 +998,17 @@ def shard(ctx) -> None:
 
     for pi, p in enumerate(progs):
         for desc, H, r in p.hist:
-            for c in classify_all(p.rep[0], r):
-                history_candidate(p, c, [corpus.WARMUP if j == -1 else progs[j].src for j in H], "history:" + desc.split("-")[0])
+            for c in classify_all(p.rep[0], r, src=p.src):
+                history_candidate(p, c, [j if isinstance(j, str) else corpus.WARMUP if j == -1 else progs[j].src for j in H], "history:" + desc.split("-")[0])
     if rev is not None and BASE_SEED in groups and groups[BASE_SEED][0] == 0:
         for pi, p in enumerate(progs):
             # history of P in the reversed interpreter: warm-up, then the programs after P in reverse order
             hs = [corpus.WARMUP] + [progs[j].src for j in range(len(progs) - 1, pi, -1) if progs[j].mode == p.mode]
-            for c in classify_all(p.child[0], rev[pi]):
+            for c in classify_all(p.child[0], rev[pi], src=p.src):
                 history_candidate(p, c, hs, "history:reversed-interpreter")
+
+    # (d') histories whose leaked state would be the interpreter's own: never-executed imports
+    isolated_history_experiments(ctx, rng, progs)
 
     # (e) the CLI, sampled
     if ctx.pick(ctx.shard % 4 == 0, True):
@@ -989,6 +1103,140 @@ def shard(ctx) -> None:
             ctx.sample({"family": p.family, "source": p.src[:600], "environments": n_env, "distinct_renderings": nd})
 
 
+CLEAR_TYPING = {"op": "clear-typing-caches"}
+
+
+def isolated_history_experiments(ctx, rng, progs) -> None:
+    """History experiments whose leaked state may belong to the interpreter (sys.modules, attributes of package objects,
+    the caches of the typing module) rather than to a Checker: neither a fresh Checker nor this used process is a
+    baseline for them, so every history is checked in its own image of ONE interpreter that has imported pyanalyze,
+    built its Checker and checked nothing (c10_child.run_group_forked).
+
+    (1) import pairs (P, H): P imports a standard-library submodule that nothing else has loaded, in a place that P's
+        own top-level code never executes (only the checker resolves it), and uses it; H is an unrelated program that
+        gets the same submodule loaded in its own way.  Images [P] and [H, P]; for a P that reaches a submodule without
+        importing it also the attribution pair [P'] / [H, P'] (see via_unimported_submodule).
+    (2) respelled twins: H = P itself with the members of every Union/Optional/Literal/`|` annotation written in another
+        order (values that compare equal but print differently: whatever is cached under such a value leaks the spelling
+        of whoever came first).  Images [P], [twin, P] and [twin, <typing caches emptied>, P]: a difference that the
+        third image still shows is held by pyanalyze; one that only the second shows came through the typing module's
+        cache of generic aliases (see via_typing_cache).
+    A difference is re-tried as `repeat` (once per kind of difference and shard) before it is reported as `history`."""
+    n = ctx.pick(6, 30)
+    mode = "tests"
+    pairs = [corpus.gen_import_pair(rng, ctx.shard * n + k, ctx.seed) for k in range(n)]
+    groups = []
+    alts: dict = {}
+    for k, (P, H, _target, _desc) in enumerate(pairs):
+        groups.append([{"src": P, "mode": mode}])
+        groups.append([{"src": H, "mode": mode}, {"src": P, "mode": mode}])
+    for k, (P, H, _target, _desc) in enumerate(pairs):
+        alt = importing_variant(P)
+        if alt is not None:
+            alts[k] = (len(groups), alt)
+            groups.append([{"src": alt, "mode": mode}])
+            groups.append([{"src": H, "mode": mode}, {"src": alt, "mode": mode}])
+    prio = {"generic-union-spelling": 0, "literal-union": 1, "proggen": 1, "illtyped": 1, "typevar": 2, "or-isinstance": 2}
+    order = sorted(range(len(progs)), key=lambda i: (prio.get(progs[i].family, 3), rng.random()))
+    twins = []
+    for i in order:
+        if len(twins) >= ctx.pick(3, 12):
+            break
+        twin = corpus.respelled_twin(progs[i].src)
+        if twin is not None:
+            p = progs[i]
+            P, T = {"src": p.src, "mode": p.mode}, {"src": twin, "mode": p.mode}
+            twins.append((i, twin, len(groups)))
+            groups += [[P], [T, P], [T, CLEAR_TYPING, P]]
+    try:
+        res, preloaded = run_child_groups(base_env(), groups, probe_modules=sorted({t for _, _, t, _ in pairs}))
+    except ChildFailed as e:
+        ctx.count("child_failures")
+        ctx.note(f"isolated-history interpreter failed: {e}")
+        return
+    ctx.count("child_environments")
+    done: dict = {}
+
+    def attribute_and_report(c, src, pmode, family, extra) -> None:
+        """`c` was seen between two images; try the finer axis once per kind of difference, then report."""
+        suf = suffix_of(c)
+        # one budget per mechanism: whatever diagnostic carries an attributed difference, it is reported under one key
+        tag = "via-typing-cache" if extra.get("via_typing_cache") else "via-unimported" if extra.get("via_unimported") else suf
+        if done.get(tag, 0) >= ctx.pick(1, 2):
+            # the same difference has been attributed and reported for another case of this shard
+            ctx.count("isolated_differences_not_reported_individually")
+            return
+        got = reproduces_inproc(src, pmode, suf, ESCALATE_REPEATS, rng)
+        ctx.count("inproc_repeat_runs", ESCALATE_REPEATS)
+        ctx.count("escalations")
+        if got is not None:
+            report(ctx, "repeat", got, {"attempts": ESCALATE_REPEATS, "first_seen": extra.get("first_seen")}, family=family, src=src, mode=pmode)
+            return
+        # the two images ARE the clean experiment [P] vs [H, P]; replay() repeats it in separately started interpreters
+        done[tag] = done.get(tag, 0) + 1
+        report(ctx, "history", c, extra, family=family, src=src, mode=pmode)
+
+    for k, (P, H, target, desc) in enumerate(pairs):
+        a, b = res[2 * k], res[2 * k + 1]
+        if a is None or b is None:
+            ctx.count("isolated_images_died")
+            continue
+        rA, rB = a[-1], b[-1]
+        ctx.count("evaluations")
+        ctx.count("import_pairs")
+        ctx.count("interpreter_images", 2)
+        ctx.count("histories")
+        ctx.count("environments_compared", 2)
+        form, rest = desc.split("/", 1)
+        ctx.histo("import_pair_program_form", form)
+        ctx.histo("import_pair_place_shape", rest.split(" after ")[0])
+        ctx.histo("import_pair_history_form", desc.split(" after ")[1])
+        ctx.histo("import_pair_submodule", target)
+        ctx.histo("import_pair_diagnostics_alone", str(min(len(rA), 5)))
+        if _is_pseudo(b[0]):
+            ctx.count("import_pair_history_program_failed")
+        if target not in preloaded:
+            ctx.count("import_pairs_submodule_not_preloaded")
+            ctx.nontrivial(P + "\0" + H)
+        for c in classify_all(rA, rB, src=P):
+            ctx.histo("import_pair_differences", f"{desc}: {suffix_of(c)}"[:160])
+            extra = {"history": [H], "first_seen": "import-pair: " + desc, "submodule": target, "via_typing_cache": False}
+            if k in alts:
+                g, alt = alts[k]
+                ctx.count("interpreter_images", 2)
+                if res[g] is not None and res[g + 1] is not None and not _is_pseudo(res[g][-1]):
+                    extra["via_unimported"] = not classify_all(res[g][-1], res[g + 1][-1], src=alt)
+                    ctx.histo("import_pair_attribution_experiment", "difference vanishes when the program imports what it uses" if extra["via_unimported"] else "difference stays")
+            attribute_and_report(c, P, mode, "never-executed-import", extra)
+
+    for i, twin, g in twins:
+        p = progs[i]
+        if any(res[g + x] is None for x in range(3)):
+            ctx.count("isolated_images_died")
+            continue
+        rA, rB, rC = res[g][-1], res[g + 1][-1], res[g + 2][-1]
+        if _is_pseudo(rA) or _is_pseudo(res[g + 1][0]):
+            ctx.count("twins_rejected_import")
+            continue
+        ctx.count("twin_histories")
+        ctx.count("histories", 2)
+        ctx.count("interpreter_images", 3)
+        ctx.count("environments_compared", 3)
+        fam = p.family if p.source != "test-snippet" else "test-snippet"
+        ctx.histo("twin_histories_by_family", fam)
+        held = classify_all(rA, rC, src=p.src)
+        for c in held:
+            ctx.histo("twin_differences", f"{fam}: {suffix_of(c)} (typing caches emptied)"[:160])
+            attribute_and_report(c, p.src, p.mode, p.family, {"history": [twin], "first_seen": "respelled twin, typing caches emptied before P",
+                                                               "via_typing_cache": False, "via_unimported": False, "clear_typing_caches": True})
+        held_sufs = {suffix_of(c) for c in held}
+        for c in classify_all(rA, rB, src=p.src):
+            if suffix_of(c) in held_sufs:
+                continue
+            ctx.histo("twin_differences", f"{fam}: {suffix_of(c)} (gone when typing caches are emptied)"[:160])
+            attribute_and_report(c, p.src, p.mode, p.family, {"history": [twin], "first_seen": "respelled twin", "via_typing_cache": True, "via_unimported": False})
+
+
 def history_experiment(src: str, mode: str, hsrcs: list, suffix, minimise: bool = False, budget: int = 4):
     """Clean experiment in fresh interpreters (pyanalyze keeps state in shared Value objects that outlive a Checker, so a
     `fresh Checker` inside a used process is not a clean baseline):  interpreter A checks [P];  interpreter B checks
@@ -1002,6 +1250,10 @@ def history_experiment(src: str, mode: str, hsrcs: list, suffix, minimise: bool 
         return None, hsrcs, n
     cands: list = []
     if minimise:
+        twin = corpus.respelled_twin(src)
+        if twin is not None:
+            # the most related history there is: the program itself, unions written in another member order
+            cands.append([twin])
         if corpus.WARMUP in hsrcs:
             cands.append([corpus.WARMUP])
         for h in hsrcs[::-1][:2]:
@@ -1015,7 +1267,7 @@ def history_experiment(src: str, mode: str, hsrcs: list, suffix, minimise: bool 
             n += 1
         except ChildFailed:
             continue
-        for c in classify_all(rA, rB):
+        for c in classify_all(rA, rB, src=src):
             if suffix is None or suffix_of(c) == suffix:
                 return c, Hc, n
     return None, hsrcs, n
@@ -1057,12 +1309,117 @@ def via_set_object(src: str, mode: str, c, envs) -> bool:
         rb = run_child(envs[1], [{"src": alt, "mode": mode}])[0][0]
     except (ChildFailed, Exception):  # noqa: BLE001
         return False
-    return all(x[1] != c[1] for x in classify_all(ra, rb))
+    return all(x[1] != c[1] for x in classify_all(ra, rb, src=src))
+
+
+def _is_module_path(dotted: str) -> bool:
+    import importlib.util
+
+    try:
+        return importlib.util.find_spec(dotted) is not None
+    except Exception:  # noqa: BLE001  (parent is not a package, broken finder ...)
+        return False
+
+
+def unimported_submodule_uses(src: str) -> list:
+    """Dotted module paths a.b[.c] that the program reaches by attribute access through a package name bound by a plain
+    `import a[.x]` statement, without ever importing a.b[.c] itself."""
+    try:
+        tree = ast.parse(src)
+    except SyntaxError:
+        return []
+    imported = imported_names(src)
+    roots = {a.name.split(".")[0] for n in ast.walk(tree) if isinstance(n, ast.Import) for a in n.names if a.asname is None}
+    out: set = set()
+    for node in ast.walk(tree):
+        parts: list = []
+        cur = node
+        while isinstance(cur, ast.Attribute):
+            parts.append(cur.attr)
+            cur = cur.value
+        if not parts or not isinstance(cur, ast.Name) or cur.id not in roots:
+            continue
+        parts = [cur.id] + parts[::-1]
+        for i in range(2, len(parts) + 1):
+            prefix = ".".join(parts[:i])
+            if prefix in imported:
+                continue
+            if prefix in out or _is_module_path(prefix):
+                out.add(prefix)
+            else:
+                break
+    return sorted(out)
+
+
+def importing_variant(src: str):
+    """The program plus module-level imports (appended at the end: no position changes) of every submodule that it
+    reaches through a package object without importing it; None if there is none."""
+    mods = unimported_submodule_uses(src)
+    if not mods:
+        return None
+    return src + ("" if src.endswith("\n") else "\n") + "".join(f"import {m}\n" for m in mods)
+
+
+def via_unimported_submodule(src: str, mode: str, c, history) -> bool:
+    """Attribution experiment for a history-dependent difference: does it vanish when the program is made to import,
+    itself, every submodule that it reaches through a package object without importing it (module-level imports appended
+    at the end: no position changes)?  Then the diagnostics merely mirrored whether EARLIER code had loaded those
+    submodules into the shared package objects - one mechanism whatever diagnostic carries it (undefined_attribute on
+    the package, or a silent Any where the package has a module-level __getattr__)."""
+    alt = importing_variant(src)
+    if alt is None or not history:
+        return False
+    P = {"src": alt, "mode": mode}
+    try:
+        res, _ = run_child_groups(base_env(), [[P], [{"src": h, "mode": mode} for h in history] + [P]])
+    except (ChildFailed, Exception):  # noqa: BLE001
+        return False
+    if res[0] is None or res[1] is None or _is_pseudo(res[0][-1]):
+        return False
+    return not classify_all(res[0][-1], res[1][-1], src=alt)
+
+
+VIA_UNIMPORTED = "history|*|content|via:submodule-that-the-checked-program-never-imports"
+VIA_TYPING = "history|*|union-member-order|via:typing-module-cache-of-generic-aliases"
+
+
+def via_typing_cache(src: str, mode: str, c, history) -> bool:
+    """Attribution experiment for a history-dependent difference of a program that writes unions inside typing generics:
+    [P] vs [H, P] shows it, [H, <typing caches emptied>, P] does not.  Then no state of pyanalyze is involved: typing's
+    `List[X]`, `Tuple[X, ...]`, `Union[X, Y]` return the alias object created for the first EQUAL argument list
+    (`int | str == str | int`), so P's own annotation objects carry the spelling of whoever evaluated an equal
+    annotation first in this interpreter, and pyanalyze (which evaluates annotations through these run-time objects)
+    prints that spelling."""
+    if not history or corpus.respelled_twin(src) is None:
+        return False
+    P = {"src": src, "mode": mode}
+    H = [{"src": h, "mode": mode} for h in history]
+    try:
+        res, _ = run_child_groups(base_env(), [[P], H + [P], H + [CLEAR_TYPING, P]])
+    except (ChildFailed, Exception):  # noqa: BLE001
+        return False
+    if any(r is None for r in res) or _is_pseudo(res[0][-1]):
+        return False
+    suf = suffix_of(c)
+    shows = any(suffix_of(x) == suf for x in classify_all(res[0][-1], res[1][-1], src=src))
+    return shows and not classify_all(res[0][-1], res[2][-1], src=src)
 
 
 def report(ctx, axis: str, c, extra: dict, family: str, src: str, mode: str = "tests") -> None:
     code, kind, cls, da, db = c
     key = f"{axis}|{suffix_of(c)}"
+    if axis == "history" and kind == "content":
+        via = extra.get("via_unimported")
+        if via is None:
+            via = via_unimported_submodule(src, mode, c, extra.get("history"))
+        if via:
+            key = VIA_UNIMPORTED
+    if axis == "history" and key != VIA_UNIMPORTED and not extra.get("clear_typing_caches"):
+        via = extra.get("via_typing_cache")
+        if via is None:
+            via = via_typing_cache(src, mode, c, extra.get("history"))
+        if via:
+            key = VIA_TYPING
     if axis == "hashseed" and kind in ("union-member-order", "listed-names-order", "order-of-diagnostics") \
             and cls != "repr of a set object" and via_set_object(src, mode, c, extra.get("envs")):
         key += "|via:set-object-of-the-checked-program"
@@ -1134,7 +1491,7 @@ def replay(witness):
         rs = inproc_repeats(src, mode, REPLAY_ATTEMPTS, rng)
     except Exception:  # noqa: BLE001
         return None
-    for c in repeat_diffs(rs):
+    for c in repeat_diffs(rs, src):
         add("repeat", c, {"attempts": REPLAY_ATTEMPTS})
     if axis == "repeat" or (want in found):
         return result()
@@ -1163,7 +1520,7 @@ def replay(witness):
         return None
     for e in lay:
         r = child(e)
-        for c in (classify_all(r0, r) if r is not None else []):
+        for c in (classify_all(r0, r, src=src) if r is not None else []):
             if suffix_of(c) not in found:
                 add("layout", c, {"envs": [b, e]})
     if want in found:
@@ -1171,7 +1528,7 @@ def replay(witness):
     for e in envs[1:] + more_seeds:
         r = child(e)
         r2 = None
-        for c in (classify_all(r0, r) if r is not None else []):
+        for c in (classify_all(r0, r, src=src) if r is not None else []):
             if suffix_of(c) in found:
                 continue
             if e["hashseed"] == b["hashseed"]:
@@ -1179,7 +1536,7 @@ def replay(witness):
                 continue
             if r2 is None:
                 r2 = child(dict(e, junk_import=5000, junk_parse=500, junk_seed=7)) or r
-            add("hashseed" if same_wrt(c, r, r2) else "layout", c, {"envs": [b, e]})
+            add("hashseed" if same_wrt(c, r, r2, src) else "layout", c, {"envs": [b, e]})
         if want in found:
             break
     return result()
